@@ -85,7 +85,7 @@ def run_property(prop, tier, seed):
         r = run_contract(table, reg, c)
         # clauses that belong to other properties are not this check's business
         r.obligations = [ob for ob in r.obligations
-                         if ob.kind != 'post' or prop in c.clause_props.get(ob.meta.get('cname'), [prop])]
+                         if ob.kind not in ('post', 'crash') or prop in c.clause_props.get(ob.meta.get('cname'), [prop])]
         results.append(r)
         apply_carve_outs(table, reg, c, r)
         all_obs.extend(r.obligations)
@@ -174,7 +174,7 @@ def run_property(prop, tier, seed):
         reason = r.out_of_subset and f'out of subset: {r.out_of_subset}'
         failed_clauses = sorted({o.meta.get('cname') for o in failed if o.kind == 'post' and o.meta.get('cname')})
         refuted = [o for o in failed if (o.result or {}).get('verdict') == 'sat']
-        for ob in refuted:
+        for ob in (refuted if getattr(c, 'searchable', True) else []):
             w = replay_model(c, ob, timeout_s)
             if w is not None and not matches_carve(c, w, known):
                 witness = w
